@@ -52,6 +52,7 @@ class Profile:
     p_set_allow: float = 0.0         # per op: allow_event_without_transition assigned after construction
     p_alias_sub: float = 0.12        # per scenario: an event re-declared under a second name by a subclass
     p_state_field: float = 0.12      # per scenario: the model attribute is not called `state`
+    p_attr: float = 0.18             # per guard given by name: it is a plain attribute (a value), not a method
 
 
 def gen_machine(rng: random.Random, P: Profile, scn: Scn):
@@ -189,10 +190,18 @@ def gen_callbacks(rng: random.Random, P: Profile, scn: Scn, evs):
         for c in scn.cbs:
             if c.style == "callable" and rng.random() < 0.2:
                 c.name = rng.choice(methods)
+    # a guard (or an action whose value nobody uses) given by name may be a *plain attribute* of its provider: the value
+    # read at that moment is the callback's value (`dispatcher.attr_method`)
+    shared = {x.alias_of for x in scn.cbs if x.alias_of}
+    for c in scn.cbs:
+        if c.style == "name" and not c.alias_of and c.id not in shared and not c.coro:
+            pa = P.p_attr if c.group in ("cond", "unless") else (P.p_attr / 3 if c.group in ("after", "enter", "exit") else 0)
+            if rng.random() < pa:
+                c.style, c.wrap, c.sig, c.named = "attr", "", "bare", ()
     used = sorted({c.provider for c in scn.cbs if c.provider.startswith("L")})
     scn.listeners_ctor = used
     if rng.random() < P.p_model_shape:
-        scn.model_shape = rng.choice(["len0", "boolF", "lib"])
+        scn.model_shape = rng.choice(["len0", "boolF", "lib", "eq"])
     if used and rng.random() < P.p_listener_kind:
         scn.listener_kind = rng.choice(["eq", "hooks", "falsy"])
     real = [c for c in scn.cbs if c.coro and not c.alias_of and c.id not in {x.alias_of for x in scn.cbs}]
@@ -224,9 +233,15 @@ def gen_acts(rng: random.Random, P: Profile, scn: Scn, evs, n_ops):
     busy = {}        # tid -> set of phases that already have a send/raise row
     rows_first, rows_last = [], []
     horizon = n_ops + 6
-    actions = [c for c in scn.cbs if c.group not in ("cond", "unless", "validators")]
-    guards = [c for c in scn.cbs if c.group in ("cond", "unless")]
-    vals = [c for c in scn.cbs if c.group == "validators"]
+    attrs = [c for c in scn.cbs if c.style == "attr"]
+    live = [c for c in scn.cbs if c.style not in ("attr", "evref")]
+    actions = [c for c in live if c.group not in ("cond", "unless", "validators")]
+    guards = [c for c in live if c.group in ("cond", "unless")]
+    vals = [c for c in live if c.group == "validators"]
+    for c in attrs:      # one value per instance
+        want = rng.random() < (0.7 if c.group == "cond" else 0.3)
+        rows_last.append((c.id, 0, 10**9, rng.choice(TRUTHY_TOKS if want else FALSY_TOKS) if c.group in ("cond", "unless")
+                          else rng.choice([t for t in RET_TOKS if not callable(POOL[t])]), None, []))
     for c in guards:
         lo = 0
         while lo < horizon + 10:
@@ -261,9 +276,9 @@ def gen_acts(rng: random.Random, P: Profile, scn: Scn, evs, n_ops):
             sends = [rng.choice(evs + [rng.randrange(1, len(EVENTS))]) for _ in range(rng.randint(1, 2))]
             rows_first.append((c.id, tid, tid, rng.choice(RET_TOKS), None, sends))
     # raising callbacks
-    if rng.random() < P.p_raise and scn.cbs:
+    if rng.random() < P.p_raise and live:
         for _ in range(rng.randint(1, 2)):
-            c = rng.choice(scn.cbs)
+            c = rng.choice(live)
             tid = rng.randint(0, horizon)
             if can_fault(c, tid):
                 busy.setdefault(tid, set()).add(phase_of(c))
@@ -391,8 +406,9 @@ def plant_evrefs(rng: random.Random, scn: Scn):
             c.named = ()
     vals = [st.val for st in scn.states]
     rows = []
+    keep = [a for a in scn.acts if any(c.id == a[0] and c.style == "attr" for c in scn.cbs)]
     for c in scn.cbs:
-        if c.style == "evref":
+        if c.style in ("evref", "attr"):
             continue
         guard = c.group in ("cond", "unless")
         for v in vals + [999]:
@@ -404,7 +420,7 @@ def plant_evrefs(rng: random.Random, scn: Scn):
             rz = None      # failures come from the chained events themselves (not allowed in the state of the moment)
             rows.append((c.id, v, v, ret, rz, []))
         rows.append((c.id, 0, 10**9, rng.choice(TRUTHY_TOKS if c.group == "cond" else FALSY_TOKS if c.group == "unless" else RET_TOKS), None, []))
-    scn.acts = rows
+    scn.acts = rows + keep
 
 
 def chain_nontrivial(s, a, rt):
